@@ -3,6 +3,7 @@ package types
 import (
 	"fmt"
 	"io"
+	"strings"
 
 	resourcetypes "github.com/projecteru2/core/resource/types"
 )
@@ -56,10 +57,21 @@ func (o DeployOptions) GetProcessing(nodename string) *Processing {
 	}
 }
 
+// isKeyComponent tells if name can be used as one component of a store key.
+// App, entrypoint and node names are joined into store keys like
+// /deploy/{appname}/{entrypoint}/{nodename}/{workloadID} and queried by key prefix,
+// so a name with '/' (or '.', '..' which path cleaning removes) would be mixed up with other names.
+func isKeyComponent(name string) bool {
+	return !strings.Contains(name, "/") && name != "." && name != ".."
+}
+
 // Validate checks options
 func (o *DeployOptions) Validate() error {
 	if o.Name == "" {
 		return ErrEmptyAppName
+	}
+	if !isKeyComponent(o.Name) {
+		return ErrInvalidAppName
 	}
 	if o.Podname == "" {
 		return ErrEmptyPodName
@@ -166,6 +178,9 @@ func (o *ReplaceOptions) Validate() error {
 	if o.DeployOptions.Name == "" {
 		return ErrEmptyAppName
 	}
+	if !isKeyComponent(o.DeployOptions.Name) {
+		return ErrInvalidAppName
+	}
 	return o.DeployOptions.Entrypoint.Validate()
 }
 
@@ -201,6 +216,9 @@ type AddNodeOptions struct {
 func (o *AddNodeOptions) Validate() error {
 	if o.Nodename == "" {
 		return ErrEmptyNodeName
+	}
+	if !isKeyComponent(o.Nodename) {
+		return ErrInvalidNodeName
 	}
 	if o.Podname == "" {
 		return ErrEmptyPodName
